@@ -1,7 +1,8 @@
 /-
-C04 — the instructions of one evaluation are bounded by the budget (for a positive budget and programs that do
-not go through a safe apply): `ticks + eval_cost` is conserved until the budget expires, and after the expiry
-nothing executes any more because no catch frame can complete (Lemmas.exec_BitsOk).
+C04 — the instructions of one evaluation are bounded by the budget: `ticks + eval_cost` is conserved until the
+budget expires; after the expiry nothing executes any more, because no catch frame can complete
+(Lemmas.exec_BitsOk) and a safe apply that stops the error leaves its caller one tick (fix d927c4d).  Each safe
+apply of the program can therefore add at most one instruction to the bound.
 -/
 import NV.C04.Lemmas
 
@@ -9,29 +10,35 @@ namespace NV.C04
 
 open NV.Gen.C04
 
-def Sh.noSafe : Sh → Bool
-  | .safe _ => false
-  | .call _ b => b.noSafe
-  | .catch_ b => b.noSafe
-  | .cb _ b => b.noSafe
-  | .seq a b => a.noSafe && b.noSafe
-  | _ => true
+/-- number of safe applies a run of the shape can make (an upper bound of the extra ticks) -/
+def Sh.safeWeight : Sh → Nat
+  | .safe b => b.safeWeight + 1
+  | .call _ b => b.safeWeight
+  | .catch_ b => b.safeWeight
+  | .cb k b => k * b.safeWeight
+  | .seq a b => a.safeWeight + b.safeWeight
+  | _ => 0
 
 /-- instructions executed plus instructions left -/
 def phi (s : St) : Int := (s.ticks : Int) + s.cost
 
-/-- the result lets the evaluation go on: completed, or an error a catch frame may handle -/
-def Out.soft : Out → Bool
+/-- the budget has not expired on the way to this result: completed, or an error other than the evaluation-cost one -/
+def Out.live : Out → Bool
   | .ok => true
-  | .raised k => !k.isLimit
+  | .raised k => k != .cost
   | .fuel => false
 
-/-- tick accounting of a step from `s` to `r` -/
-def TB (s : St) (r : Out × St) : Prop :=
-  0 < s.cost → (r.1.soft = true → phi r.2 = phi s ∧ 0 < r.2.cost) ∧ (r.2.ticks : Int) ≤ phi s
+/-- tick accounting of a step from `s` to `r` with `n` extra ticks allowed -/
+def TB (n : Nat) (s : St) (r : Out × St) : Prop :=
+  0 < s.cost → (r.1.live = true → phi r.2 ≤ phi s + n ∧ 0 < r.2.cost) ∧ (r.2.ticks : Int) ≤ phi s + n
 
-theorem TB_seqM {s : St} {r : Out × St} {k : St → Out × St} (h1 : TB s r) (h2 : ∀ s1, TB s1 (k s1)) :
-    TB s (seqM r k) := by
+theorem TB_mono {n m : Nat} {s : St} {r : Out × St} (h : TB n s r) (hnm : n ≤ m) : TB m s r := by
+  intro hc
+  obtain ⟨ha, hb⟩ := h hc
+  exact ⟨fun hl => ⟨by have := (ha hl).1; omega, (ha hl).2⟩, by omega⟩
+
+theorem TB_seqM {n m : Nat} {s : St} {r : Out × St} {k : St → Out × St} (h1 : TB n s r) (h2 : ∀ s1, TB m s1 (k s1)) :
+    TB (n + m) s (seqM r k) := by
   intro hc
   obtain ⟨ha, hb⟩ := h1 hc
   unfold seqM
@@ -39,171 +46,200 @@ theorem TB_seqM {s : St} {r : Out × St} {k : St → Out × St} (h1 : TB s r) (h
   · rename_i s1
     obtain ⟨hphi, hc1⟩ := ha rfl
     obtain ⟨hk1, hk2⟩ := h2 s1 hc1
-    exact ⟨fun hs => by rw [← hphi]; exact hk1 hs, by rw [← hphi]; exact hk2⟩
-  · exact ⟨ha, hb⟩
+    refine ⟨fun hs => ⟨?_, (hk1 hs).2⟩, ?_⟩
+    · have := (hk1 hs).1; simp only at hphi; omega
+    · simp only at hphi; omega
+  · exact ⟨fun hl => ⟨by have := (ha hl).1; omega, (ha hl).2⟩, by omega⟩
 
-theorem raise_ticks (cfg : Cfg) (ctx : Ctx) (k : Kind) (s : St) :
-    (raise cfg ctx k s).2.ticks = s.ticks ∧ (raise cfg ctx k s).2.cost = s.cost ∧ (raise cfg ctx k s).1 = .raised k := by
-  unfold raise; cases ctx <;> simp <;> split <;> simp
-
-theorem TB_raise (cfg : Cfg) (ctx : Ctx) (k : Kind) (s0 s : St) (ht : (s.ticks : Int) ≤ phi s0)
-    (hsoft : k.isLimit = false → phi s = phi s0 ∧ 0 < s.cost) : TB s0 (raise cfg ctx k s) := by
+theorem TB_raise (cfg : Cfg) (ctx : Ctx) (k : Kind) (n : Nat) (s0 s : St) (ht : (s.ticks : Int) ≤ phi s0 + n)
+    (hlive : k ≠ .cost → phi s ≤ phi s0 + n ∧ 0 < s.cost) : TB n s0 (raise cfg ctx k s) := by
   intro _
-  obtain ⟨h1, h2, h3⟩ := raise_ticks cfg ctx k s
-  refine ⟨fun hs => ?_, by rw [h1]; exact ht⟩
-  rw [h3] at hs
-  have hk : k.isLimit = false := by simpa [Out.soft] using hs
-  obtain ⟨hp, hc⟩ := hsoft hk
-  exact ⟨by unfold phi at hp ⊢; rw [h1, h2]; exact hp, by rw [h2]; exact hc⟩
+  unfold raise
+  refine ⟨fun hs => ?_, ht⟩
+  have hk : k ≠ .cost := by
+    intro he; subst he; simp [Out.live] at hs
+  exact hlive hk
 
-theorem TB_tick (cfg : Cfg) (ctx : Ctx) (s : St) : TB s (tick cfg ctx s) := by
+theorem TB_tick (cfg : Cfg) (ctx : Ctx) (s : St) : TB 0 s (tick cfg ctx s) := by
   intro hc
   unfold tick
   simp only
   split
   · rename_i hz
     have hz' : s.cost - 1 = 0 := by simpa using hz
-    have hle : (((setEs { s with ticks := s.ticks + 1, cost := s.cost - 1 } esMaxEvalCost).ticks : Nat) : Int) ≤ phi s := by
-      show (((s.ticks + 1 : Nat) : Int)) ≤ phi s
+    have hle : (((setEs { s with ticks := s.ticks + 1, cost := s.cost - 1 } esMaxEvalCost).ticks : Nat) : Int) ≤ phi s + (0 : Nat) := by
+      show (((s.ticks + 1 : Nat) : Int)) ≤ phi s + (0 : Nat)
       unfold phi; omega
-    exact TB_raise cfg ctx .cost s _ hle (fun h => by cases h) hc
+    exact TB_raise cfg ctx .cost 0 s _ hle (fun h => absurd rfl h) hc
   · rename_i hz
     have hz' : s.cost - 1 ≠ 0 := by simpa using hz
     refine ⟨fun _ => ⟨?_, ?_⟩, ?_⟩
-    · show (((s.ticks + 1 : Nat) : Int)) + (s.cost - 1) = phi s
+    · show (((s.ticks + 1 : Nat) : Int)) + (s.cost - 1) ≤ phi s + (0 : Nat)
       unfold phi; omega
     · show 0 < s.cost - 1
       omega
-    · show (((s.ticks + 1 : Nat) : Int)) ≤ phi s
+    · show (((s.ticks + 1 : Nat) : Int)) ≤ phi s + (0 : Nat)
       unfold phi; omega
 
-theorem TB_stop (s : St) (o : Out) (ho : o.soft = false) : TB s (o, s) := by
+theorem TB_stop (s : St) (o : Out) (ho : o.live = false) : TB 0 s (o, s) := by
   intro hc
   refine ⟨fun h => ?_, ?_⟩
   · rw [ho] at h; cases h
-  · show (s.ticks : Int) ≤ phi s
+  · show (s.ticks : Int) ≤ phi s + (0 : Nat)
     unfold phi; omega
 
-theorem TB_ok_same (s s' : St) (h1 : s'.ticks = s.ticks) (h2 : s'.cost = s.cost) : TB s (.ok, s') := by
+theorem TB_ok_same (s s' : St) (o : Out) (h1 : s'.ticks = s.ticks) (h2 : s'.cost = s.cost) : TB 0 s (o, s') := by
   intro hc
-  exact ⟨fun _ => ⟨by unfold phi; rw [h1, h2], by rw [h2]; exact hc⟩, by unfold phi; rw [h1]; omega⟩
+  refine ⟨fun _ => ⟨?_, by show 0 < s'.cost; rw [h2]; exact hc⟩, ?_⟩
+  · show phi s' ≤ phi s + (0 : Nat)
+    unfold phi; rw [h1, h2]; omega
+  · show (s'.ticks : Int) ≤ phi s + (0 : Nat)
+    unfold phi; rw [h1]; omega
 
-theorem TB_ticksN (cfg : Cfg) (ctx : Ctx) (n : Nat) (s : St) : TB s (ticksN cfg ctx n s) := by
+theorem TB_ticksN (cfg : Cfg) (ctx : Ctx) (n : Nat) (s : St) : TB 0 s (ticksN cfg ctx n s) := by
   induction n generalizing s with
-  | zero => unfold ticksN; exact TB_ok_same _ _ rfl rfl
+  | zero => unfold ticksN; exact TB_ok_same _ _ _ rfl rfl
   | succ n ih =>
     unfold ticksN
     have ht := TB_tick cfg ctx s
-    have : TB s (seqM (tick cfg ctx s) (fun s1 => ticksN cfg ctx n s1)) := TB_seqM ht (fun s1 => ih s1)
+    have : TB (0 + 0) s (seqM (tick cfg ctx s) (fun s1 => ticksN cfg ctx n s1)) := TB_seqM ht (fun s1 => ih s1)
     unfold seqM at this
     exact this
 
-theorem TB_spin (cfg : Cfg) (ctx : Ctx) (n : Nat) (s : St) : TB s (spin cfg ctx n s) := by
+theorem TB_spin (cfg : Cfg) (ctx : Ctx) (n : Nat) (s : St) : TB 0 s (spin cfg ctx n s) := by
   induction n generalizing s with
   | zero => unfold spin; exact TB_stop _ _ rfl
   | succ n ih =>
     unfold spin
     have ht := TB_tick cfg ctx s
-    have : TB s (seqM (tick cfg ctx s) (fun s1 => spin cfg ctx n s1)) := TB_seqM ht (fun s1 => ih s1)
+    have : TB (0 + 0) s (seqM (tick cfg ctx s) (fun s1 => spin cfg ctx n s1)) := TB_seqM ht (fun s1 => ih s1)
     unfold seqM at this
     exact this
 
-theorem TB_pushFrame (cfg : Cfg) (ctx : Ctx) (s : St) : TB s (pushFrame cfg ctx s) := by
+theorem TB_pushFrame (cfg : Cfg) (ctx : Ctx) (s : St) : TB 0 s (pushFrame cfg ctx s) := by
   unfold pushFrame
   split
-  · intro hc
-    exact TB_raise cfg ctx .deep s _ (by show (s.ticks : Int) ≤ phi s; unfold phi; omega) (fun h => by cases h) hc
-  · exact TB_ok_same _ _ rfl rfl
+  · exact TB_ok_same _ _ _ rfl rfl
+  · exact TB_ok_same _ _ _ rfl rfl
 
-theorem TB_pushChecked (cfg : Cfg) (ctx : Ctx) (n : Nat) (s : St) : TB s (pushChecked cfg ctx n s) := by
+theorem TB_pushChecked (cfg : Cfg) (ctx : Ctx) (n : Nat) (s : St) : TB 0 s (pushChecked cfg ctx n s) := by
   unfold pushChecked
   split
-  · intro hc
-    exact TB_raise cfg ctx .stack s _ (by show (s.ticks : Int) ≤ phi s; unfold phi; omega) (fun h => by cases h) hc
-  · exact TB_ok_same _ _ rfl rfl
+  · exact TB_ok_same _ _ _ rfl rfl
+  · exact TB_ok_same _ _ _ rfl rfl
 
 /-- relating the result of a sub-run that started in `s1` (same ticks and cost as `s`) to `s` -/
-theorem TB_of_eq {s s1 : St} {r : Out × St} (h : TB s1 r) (h1 : s1.ticks = s.ticks) (h2 : s1.cost = s.cost) : TB s r := by
+theorem TB_of_eq {n : Nat} {s s1 : St} {r : Out × St} (h : TB n s1 r) (h1 : s1.ticks = s.ticks) (h2 : s1.cost = s.cost) :
+    TB n s r := by
   intro hc
   have := h (by rw [h2]; exact hc)
   unfold phi at this ⊢
   rw [h1, h2] at this
   exact this
 
-theorem TB_catchLanding (cfg : Cfg) (ctx : Ctx) (d0 p0 : Int) (k : Kind) (s0 s : St)
-    (hb : k.isLimit = true → limitSet s) (h : TB s0 (.raised k, s)) :
-    TB s0 (catchLanding cfg ctx d0 p0 k s) := by
+theorem TB_catchLanding (cfg : Cfg) (ctx : Ctx) (n : Nat) (d0 p0 : Int) (k : Kind) (s0 s : St)
+    (hb : k = .cost → hasEs s esMaxEvalCost = true) (h : TB n s0 (.raised k, s)) :
+    TB n s0 (catchLanding cfg ctx d0 p0 k s) := by
   intro hc
   obtain ⟨ha, hbd⟩ := h hc
   unfold catchLanding
   simp only
   split
-  · exact TB_raise cfg ctx .cost s0 _ (by exact hbd) (fun h => by cases h) hc
-  · split
-    · exact TB_raise cfg ctx .deep s0 _ (by exact hbd) (fun h => by cases h) hc
-    · rename_i h1 h2
-      have hk : k.isLimit = false := by
-        cases hl : k.isLimit with
-        | false => rfl
-        | true =>
-          exfalso
-          rcases hb hl with hc' | hf
-          · apply h1; simpa [hasEs, pushUnchecked, leave] using hc'
-          · apply h2; simpa [hasEs, pushUnchecked, leave] using hf
-      obtain ⟨hp, hcost⟩ := ha (by simp [Out.soft, hk])
-      exact ⟨fun _ => ⟨hp, hcost⟩, hbd⟩
+  · exact TB_raise cfg ctx .cost n s0 _ hbd (fun h => absurd rfl h) hc
+  · rename_i h1
+    have hk : k ≠ .cost := by
+      intro he; apply h1; simpa [hasEs, pushUnchecked, leave] using hb he
+    have hlive := ha (by simp [Out.live, hk])
+    split
+    · exact TB_raise cfg ctx .deep n s0 _ hbd (fun _ => hlive) hc
+    · exact ⟨fun _ => hlive, hbd⟩
 
-/-- tick accounting of every safe-apply-free shape -/
-theorem exec_TB (cfg : Cfg) (fuel : Nat) (ctx : Ctx) (sh : Sh) (s : St) (hns : sh.noSafe = true) :
-    TB s (exec cfg fuel ctx sh s) := by
+/-- tick accounting of every shape: at most `safeWeight` instructions beyond the budget -/
+theorem exec_TB (cfg : Cfg) (fuel : Nat) (ctx : Ctx) (sh : Sh) (s : St) :
+    TB sh.safeWeight s (exec cfg fuel ctx sh s) := by
   induction fuel generalizing ctx sh s with
-  | zero => unfold exec; exact TB_stop _ _ rfl
+  | zero => unfold exec; exact TB_mono (TB_stop _ _ rfl) (Nat.zero_le _)
   | succ f ih =>
     unfold exec
     cases sh with
-    | skip => exact TB_ok_same _ _ rfl rfl
+    | skip => exact TB_ok_same _ _ _ rfl rfl
     | work n => exact TB_ticksN cfg ctx n s
     | spin => exact TB_spin cfg ctx _ s
-    | err =>
-      intro hc
-      exact TB_raise cfg ctx .plain s s (by unfold phi; omega) (fun _ => ⟨rfl, hc⟩) hc
+    | err => exact TB_ok_same _ _ _ rfl rfl
     | throw_ =>
       cases ctx
-      · show TB s (raise cfg .driver .plain s)
-        intro hc
-        exact TB_raise cfg _ .plain s s (by unfold phi; omega) (fun _ => ⟨rfl, hc⟩) hc
-      · show TB s (.raised .thrown, s)
-        intro hc
-        exact ⟨fun _ => ⟨rfl, hc⟩, by show (s.ticks : Int) ≤ phi s; unfold phi; omega⟩
-      · show TB s (raise cfg .safe .plain s)
-        intro hc
-        exact TB_raise cfg _ .plain s s (by unfold phi; omega) (fun _ => ⟨rfl, hc⟩) hc
-    | seq a b =>
-      have hab : a.noSafe = true ∧ b.noSafe = true := by simpa [Sh.noSafe] using hns
-      exact TB_seqM (ih ctx a s hab.1) (fun s1 => ih ctx b s1 hab.2)
+      · exact TB_ok_same _ _ _ rfl rfl
+      · exact TB_ok_same _ _ _ rfl rfl
+      · exact TB_ok_same _ _ _ rfl rfl
+    | seq a b => exact TB_seqM (ih ctx a s) (fun s1 => ih ctx b s1)
     | call locals body =>
-      have hb : body.noSafe = true := by simpa [Sh.noSafe] using hns
-      exact TB_seqM (TB_pushFrame cfg ctx s) fun s1 =>
+      have := TB_seqM (TB_pushFrame cfg ctx s) fun s1 =>
         TB_seqM (TB_pushChecked cfg ctx locals s1) fun s2 =>
-        TB_seqM (TB_ticksN cfg ctx _ s2) fun s3 =>
-        TB_seqM (ih ctx body s3 hb) fun s4 => TB_ok_same _ _ rfl rfl
-    | recur locals => exact ih ctx _ s (by simp [Sh.noSafe])
-    | crecur => exact ih ctx _ s (by simp [Sh.noSafe])
+        TB_seqM (TB_ticksN cfg ctx callTicks s2) fun s3 =>
+        TB_seqM (ih ctx body s3) fun s4 =>
+        TB_seqM (TB_tick cfg ctx s4) fun s5 => TB_ok_same s5 (leave s5 s.depth s.sp) .ok rfl rfl
+      exact TB_mono this (by simp [Sh.safeWeight])
+    | recur locals => exact TB_mono (ih ctx _ s) (by simp [Sh.safeWeight])
+    | crecur => exact TB_mono (ih ctx _ s) (by simp [Sh.safeWeight])
     | cb k body =>
-      have hb : body.noSafe = true := by simpa [Sh.noSafe] using hns
       cases k with
-      | zero => exact TB_ok_same _ _ rfl rfl
+      | zero => exact TB_mono (TB_ok_same _ _ _ rfl rfl) (Nat.zero_le _)
       | succ k =>
-        exact TB_seqM (ih ctx _ s (by simpa [Sh.noSafe] using hb)) (fun s1 => ih ctx _ s1 (by simpa [Sh.noSafe] using hb))
-    | safe body => simp [Sh.noSafe] at hns
-    | catch_ body =>
-      have hb : body.noSafe = true := by simpa [Sh.noSafe] using hns
+        have := TB_seqM (TB_tick cfg ctx s) fun s0 => TB_seqM (ih ctx (.call 0 (.call 0 body)) s0) (fun s1 => ih ctx (.cb k body) s1)
+        exact TB_mono this (by simp [Sh.safeWeight, Nat.succ_mul]; omega)
+    | safe body =>
+      have hw0 : (Sh.safe body).safeWeight = 0 + (body.safeWeight + 1) := by simp [Sh.safeWeight]
+      rw [hw0]
+      refine TB_seqM (TB_tick cfg ctx s) (fun s => ?_)
       simp only
       split
-      · intro hc
-        exact TB_raise cfg ctx .deep s _ (by show (s.ticks : Int) ≤ phi s; unfold phi; omega) (fun h => by cases h) hc
-      · have hi : TB s (exec cfg f .catch_ body (pushCatchFrame s)) := TB_of_eq (ih .catch_ body _ hb) rfl rfl
-        have hbits := exec_BitsOk cfg f body (pushCatchFrame s)
+      · exact TB_mono (TB_ok_same _ _ _ rfl rfl) (Nat.zero_le _)
+      · have hi := ih .safe (.call 0 body) s
+        have hbits := exec_BitsOk cfg f .safe (.call 0 body) s
+        have hw : (Sh.call 0 body).safeWeight = body.safeWeight := by simp [Sh.safeWeight]
+        rw [hw] at hi
+        split
+        · rename_i s1 heq; rw [heq] at hi
+          intro hc
+          obtain ⟨ha, hbd⟩ := hi hc
+          have h1 : phi s1 ≤ phi s + (body.safeWeight : Int) ∧ 0 < s1.cost := ha rfl
+          have h2 : (s1.ticks : Int) ≤ phi s + (body.safeWeight : Int) := hbd
+          refine ⟨fun _ => ⟨?_, h1.2⟩, ?_⟩
+          · show (s1.ticks : Int) + s1.cost ≤ phi s + ((body.safeWeight + 1 : Nat) : Int)
+            have := h1.1; unfold phi at this ⊢; omega
+          · show (s1.ticks : Int) ≤ phi s + ((body.safeWeight + 1 : Nat) : Int)
+            omega
+        · rename_i k s1 heq; rw [heq] at hi hbits
+          intro hc
+          obtain ⟨ha, hbd⟩ := hi hc
+          have h2 : (s1.ticks : Int) ≤ phi s + (body.safeWeight : Int) := hbd
+          refine ⟨fun _ => ?_, ?_⟩
+          · show (s1.ticks : Int) + (if hasEs s1 esMaxEvalCost then 1 else s1.cost) ≤ phi s + ((body.safeWeight + 1 : Nat) : Int) ∧
+              0 < (if hasEs s1 esMaxEvalCost then 1 else s1.cost)
+            split
+            · exact ⟨by omega, by omega⟩
+            · rename_i hnb
+              have hk : k ≠ .cost := by
+                intro he
+                have hl : k.isLimit = true := by subst he; rfl
+                exact hnb ((hbits k rfl hl).2 he)
+              have h1 : phi s1 ≤ phi s + (body.safeWeight : Int) ∧ 0 < s1.cost := ha (by simp [Out.live, hk])
+              have := h1.1
+              refine ⟨?_, h1.2⟩
+              unfold phi at this ⊢; omega
+          · show (s1.ticks : Int) ≤ phi s + ((body.safeWeight + 1 : Nat) : Int)
+            omega
+        · rename_i s1 heq; rw [heq] at hi
+          intro hc
+          obtain ⟨ha, hbd⟩ := hi hc
+          have h2 : (s1.ticks : Int) ≤ phi s + (body.safeWeight : Int) := hbd
+          exact ⟨fun h => (by cases h), (by show (s1.ticks : Int) ≤ phi s + ((body.safeWeight + 1 : Nat) : Int); omega)⟩
+    | catch_ body =>
+      simp only
+      split
+      · exact TB_mono (TB_ok_same _ _ _ rfl rfl) (Nat.zero_le _)
+      · have hi : TB body.safeWeight s (exec cfg f .catch_ body (pushCatchFrame s)) := TB_of_eq (ih .catch_ body _) rfl rfl
+        have hbits := exec_BitsOk cfg f .catch_ body (pushCatchFrame s)
         split
         · rename_i s2 heq; rw [heq] at hi
           intro hc
@@ -213,6 +249,9 @@ theorem exec_TB (cfg : Cfg) (fuel : Nat) (ctx : Ctx) (sh : Sh) (s : St) (hns : s
           intro hc
           exact ⟨fun h => (by cases h), (hi hc).2⟩
         · rename_i k s2 heq; rw [heq] at hi hbits
-          exact TB_catchLanding cfg ctx _ _ k s s2 (fun hl => hbits k rfl hl) hi
+          apply TB_catchLanding cfg ctx _ _ _ k s s2 _ hi
+          intro he
+          have hl : k.isLimit = true := by subst he; rfl
+          exact (hbits k rfl hl).2 he
 
 end NV.C04
